@@ -571,6 +571,10 @@ class ConnOracle:
             return None
         if ws[0] == "recv":
             p = unhx(ws[1])
+            if len(p) == 1 and not out.startswith("protoErr"):
+                return "received close frame with a one-byte body (no complete status code, RFC 6455 §5.5.1) was not rejected"
+            if len(p) == 0 and not out.startswith("close 1005 - "):
+                return "received close frame without body was not accepted as 'no status'"
             if len(p) >= 2:
                 code = int.from_bytes(p[:2], "big")
                 bad = not rfc_close_code_ok(code) or not is_utf8(p[2:])
